@@ -729,9 +729,14 @@ func partialOf(raw string) string {
 }
 
 func headerValue(msg, name string) string {
+	// the value tie is about well-formed header blocks: CRLF line ends throughout. A message whose lines end in bare LF (or a
+	// mixture) is read by the server's library in its own way; that is not this tie's business
 	head := msg
 	if i := strings.Index(msg, "\r\n\r\n"); i >= 0 {
 		head = msg[:i]
+	}
+	if strings.Contains(strings.ReplaceAll(head, "\r\n", ""), "\n") || strings.Contains(strings.ReplaceAll(head, "\r\n", ""), "\r") {
+		return ""
 	}
 	lines := strings.Split(head, "\r\n")
 	for i, l := range lines {
